@@ -5,10 +5,13 @@
 package main
 
 import (
+	"encoding/json"
 	"flag"
 	"fmt"
 	"io"
 	"os"
+	"os/exec"
+	"path/filepath"
 	"strings"
 
 	"github.com/uhn/ggql/pkg/ggql"
@@ -177,6 +180,161 @@ func cmdLoadHist(args []string) {
 	rep.Emit()
 }
 
+// expand replaces the ASCII stand-ins of MCPrint.tla by the characters they stand for.
+var standIns = strings.NewReplacer("{Q}", "\"", "{B}", "\\", "{N}", "\n", "{E}", "\u00e9", "{T}", "\"\"\"", "{U}", "\\u0041", "{S}", " ", "{4}", "\U0001F600")
+
+func expandAny(x interface{}) interface{} {
+	switch v := x.(type) {
+	case string:
+		return standIns.Replace(v)
+	case []interface{}:
+		for i := range v {
+			v[i] = expandAny(v[i])
+		}
+		return v
+	case map[string]interface{}:
+		out := map[string]interface{}{}
+		for k, e := range v {
+			out[standIns.Replace(k)] = expandAny(e)
+		}
+		return out
+	}
+	return x
+}
+
+func expandDefs(defs []sch.Def) []sch.Def {
+	b, _ := json.Marshal(defs)
+	var gen interface{}
+	_ = json.Unmarshal(b, &gen)
+	b, _ = json.Marshal(expandAny(gen))
+	var out []sch.Def
+	if err := json.Unmarshal(b, &out); err != nil {
+		vh.Die("expand: %s", err)
+	}
+	return out
+}
+
+// named numeric points of MCPrint!NumDefaults as written in SDL
+var numText = map[string]string{"i2p53": "9007199254740992", "f1_5": "1.5", "fm0_5": "-0.5", "f1e300": "1e300", "f1em50": "1e-50"}
+
+func perTypeSDL(root *ggql.Root) string {
+	var b strings.Builder
+	for _, t := range root.Types() {
+		if !t.Core() {
+			b.WriteString("\n")
+			b.WriteString(t.SDL(true))
+		}
+	}
+	for _, t := range root.VerifDirectives() {
+		if !t.Core() {
+			b.WriteString("\n")
+			b.WriteString(t.SDL(true))
+		}
+	}
+	return b.String()
+}
+
+// cmdRoundTrip (C15): load the document, print the root, load the printed text into a fresh
+// root, compare the schemas read back, print again and compare the texts.
+func cmdRoundTrip(args []string) {
+	fs := flag.NewFlagSet("roundtrip", flag.ExitOnError)
+	vp := fs.String("vectors", "", "vectors json (one-step histories)")
+	gen := fs.String("ggqlgen", "", "path of a ggqlgen binary built from /repo (optional)")
+	_ = fs.Parse(args)
+	var hs []History
+	vh.ReadJSON(*vp, &hs)
+	rep := vh.NewReport("schema", "roundtrip")
+	// object valued defaults are Go maps: their printed key order is only defined with ggql.Sort,
+	// which ggqlgen sets as well
+	ggql.Sort = true
+	tmp, _ := os.MkdirTemp("", "rt")
+	defer os.RemoveAll(tmp)
+	for hi := range hs {
+		st := &hs[hi].Hist[0]
+		defs := expandDefs(st.Doc)
+		exp := expandAny(st.Canon)
+		text, _ := sch.DocText(defs)
+		for n, t := range numText {
+			text = strings.ReplaceAll(text, n, t)
+		}
+		cs := map[string]interface{}{"document": text, "tag": hs[hi].Tag}
+		rep.Case(text, hs[hi].Tag != "bases")
+		rep.Class(hs[hi].Tag)
+		if hi%211 == 0 {
+			rep.Sample(text)
+		}
+		bad := func(aspect, what string) {
+			c2 := map[string]interface{}{"document": text, "tag": hs[hi].Tag, "aspect": aspect}
+			rep.Mismatch(vh.Mismatch{Case: c2, What: aspect + ": " + what})
+		}
+		root1 := ggql.NewRoot(nil)
+		if err := root1.ParseString(text); err != nil {
+			bad("accept", fmt.Sprintf("the document is refused: %v", err))
+			continue
+		}
+		c1 := sch.ReadBack(root1)
+		if hs[hi].Tag != "numeric" { // numeric named points are compared through the round trip only
+			if ds := sch.Diff(exp, c1); len(ds) > 0 {
+				bad("read", "the loaded schema differs from the document: "+strings.Join(ds, "; "))
+				continue
+			}
+		}
+		for _, mode := range []string{"root", "pertype"} {
+			p1 := root1.SDL(false, true)
+			if mode == "pertype" {
+				p1 = perTypeSDL(root1)
+			}
+			root2 := ggql.NewRoot(nil)
+			if err := root2.ParseString(p1); err != nil {
+				bad("reparse", fmt.Sprintf("%s: the printed schema is refused: %v\n--- printed:\n%s", mode, err, p1))
+				continue
+			}
+			if ds := sch.Diff(c1, sch.ReadBack(root2)); len(ds) > 0 {
+				bad("same", fmt.Sprintf("%s: the printed schema defines a different schema: %s\n--- printed:\n%s", mode, strings.Join(ds, "; "), p1))
+				continue
+			}
+			p2 := root2.SDL(false, true)
+			if mode == "pertype" {
+				p2 = perTypeSDL(root2)
+			}
+			if p1 != p2 {
+				bad("fixpoint", fmt.Sprintf("%s: printing again gives a different text:\n--- first:\n%s\n--- second:\n%s", mode, p1, p2))
+			}
+		}
+		if *gen != "" && hi%7 == 0 {
+			// ggqlgen -w rewrites the file with the printed form; -e embeds it in a Go file
+			f := filepath.Join(tmp, fmt.Sprintf("s%d.graphql", hi))
+			_ = os.WriteFile(f, []byte(text), 0600)
+			g := filepath.Join(tmp, fmt.Sprintf("e%d.go", hi))
+			out, err := exec.Command(*gen, "-w", f, "-e", f+":"+g+":Schema").CombinedOutput()
+			if err != nil {
+				bad("ggqlgen", fmt.Sprintf("ggqlgen failed: %v %s", err, out))
+				continue
+			}
+			rew, _ := os.ReadFile(f)
+			root3 := ggql.NewRoot(nil)
+			if err := root3.Parse(rew); err != nil {
+				bad("ggqlgen", fmt.Sprintf("the file rewritten by ggqlgen -w is refused: %v\n%s", err, rew))
+			} else if ds := sch.Diff(c1, sch.ReadBack(root3)); len(ds) > 0 {
+				bad("ggqlgen", "ggqlgen -w changed the schema: "+strings.Join(ds, "; "))
+			}
+			emb, _ := os.ReadFile(g)
+			if i, j := strings.Index(string(emb), "`"), strings.LastIndex(string(emb), "`"); i >= 0 && j > i {
+				root4 := ggql.NewRoot(nil)
+				if err := root4.ParseString(string(emb)[i+1 : j]); err != nil {
+					bad("ggqlgen", fmt.Sprintf("the schema embedded by ggqlgen -e is refused: %v", err))
+				} else if ds := sch.Diff(c1, sch.ReadBack(root4)); len(ds) > 0 {
+					bad("ggqlgen", "ggqlgen -e changed the schema: "+strings.Join(ds, "; "))
+				}
+			} else {
+				bad("ggqlgen", "no embedded schema in the -e output")
+			}
+		}
+		_ = cs
+	}
+	rep.Emit()
+}
+
 var rootKinds = []string{"reflection", "resolver", "any"}
 
 type appRoot struct{}
@@ -243,6 +401,8 @@ func main() {
 	switch os.Args[1] {
 	case "loadhist":
 		cmdLoadHist(os.Args[2:])
+	case "roundtrip":
+		cmdRoundTrip(os.Args[2:])
 	default:
 		vh.Die("unknown mode %s", os.Args[1])
 	}
